@@ -47,6 +47,12 @@ func (c *c16Case) render() (string, hx.Outcome) {
 		var n int
 		fmt.Sscan(c.S, &n)
 		b["s"] = n
+	case "uint", "uint8", "uint16", "uint32", "uint64", "int8", "int64":
+		var n int64
+		fmt.Sscan(c.S, &n)
+		sp := hx.SInt(n)
+		sp.R = c.Recv
+		b["s"] = sp.Realise()
 	case "float":
 		var f float64
 		fmt.Sscan(c.S, &f)
@@ -359,6 +365,55 @@ var c16Split = hx.Define("c16.split-join", func(c *c16SplitCase, s *hx.Sub) *hx.
 	return nil
 })
 
+// numbers given where a string is expected are converted to the text they print as
+
+type c16NumArgCase struct {
+	Filter string `json:"filter"` // append | prepend | remove | split-join
+	Rep    string `json:"rep"`
+	N      int64  `json:"n"`
+}
+
+var c16NumArg = hx.Define("c16.number-as-text", func(c *c16NumArgCase, s *hx.Sub) *hx.Violation {
+	sp := hx.SInt(c.N)
+	if c.Rep == "float64" {
+		sp = hx.SFloat(float64(c.N) + 0.5)
+	} else {
+		sp.R = c.Rep
+	}
+	text := fmt.Sprint(c.N)
+	if c.Rep == "float64" {
+		text = fmt.Sprint(float64(c.N) + 0.5)
+	}
+	base := "a" + text + "b" + text
+	var src, want string
+	switch c.Filter {
+	case "append":
+		src, want = `{{ "x" | append: n }}|{{ n | append: "x" }}`, "x"+text+"|"+text+"x"
+	case "prepend":
+		src, want = `{{ "x" | prepend: n }}|{{ n | prepend: "x" }}`, text+"x|x"+text
+	case "remove":
+		src, want = `{{ s | remove: n }}|{{ s | replace: n, "-" }}`, "ab|a-b-"
+	default:
+		src, want = `{{ s | split: n | join: "," }}|{{ n | size }}`, "a,b|"+fmt.Sprint(len(text))
+		if c.Filter == "split-join" {
+			want = "a,b|" // size of a number is not asserted (see c16.apply); only the split half
+			src = `{{ s | split: n | join: "," }}|`
+		}
+	}
+	o := hx.Render(src, map[string]any{"n": sp.Realise(), "s": base})
+	if o.Panic != nil {
+		return hx.V("panic@"+o.Panic.Site, "%s with n=%s(%v): %v", src, c.Rep, c.N, o.Panic)
+	}
+	if !o.OK() || o.Out != want {
+		return hx.V("c16:number-as-text:"+c.Filter, "%s with n = %s(%s) and s = %q renders %v; a number is converted to the text it prints as, expected %q", src, map[bool]string{true: "int", false: c.Rep}[c.Rep == ""], text, base, o, want)
+	}
+	s.NT()
+	if s.WantSample() {
+		s.Sample(map[string]any{"template": src, "n": text, "rep": c.Rep, "output": o.Out})
+	}
+	return nil
+})
+
 var c16Alphabet = []string{"a", "B", " ", "\n", "é", "😀", "<", "&", "%"}
 var c16NoArg = []string{"upcase", "downcase", "capitalize", "strip", "lstrip", "rstrip", "size", "escape", "escape_once", "url_encode", "url_decode", "newline_to_br", "strip_newlines", "strip_html"}
 var c16StrArgs = []string{"", "a", "B", " ", "é", "😀", "<", "&", "%", "aB", "a ", "&a", "éé", "\n"}
@@ -424,7 +479,7 @@ func TestC16(t *testing.T) {
 		run(&c16Case{Filter: "truncatewords", S: s})
 	}
 	// receivers of other kinds are first converted to the text they print as
-	for _, r := range []struct{ kind, s string }{{"int", "12"}, {"int", "-7"}, {"int", "0"}, {"float", "2.5"}, {"float", "-0.25"}, {"bool", "true"}, {"bool", "false"}, {"nil", ""}} {
+	for _, r := range []struct{ kind, s string }{{"int", "12"}, {"int", "-7"}, {"int", "0"}, {"uint", "65"}, {"uint8", "97"}, {"uint16", "48"}, {"uint32", "8364"}, {"uint64", "12"}, {"int8", "-7"}, {"int64", "66"}, {"float", "2.5"}, {"float", "-0.25"}, {"bool", "true"}, {"bool", "false"}, {"nil", ""}} {
 		// (size is left out: it is also an array filter, and what it says about a number is not stated)
 		for _, f := range []string{"upcase", "downcase", "capitalize", "strip", "escape", "url_encode"} {
 			run(&c16Case{Filter: f, S: r.s, Recv: r.kind})
@@ -476,6 +531,21 @@ func TestC16(t *testing.T) {
 			t.Fatalf("%s", v.Message)
 		}
 	})
+
+	na := c16NumArg.On(col, "exhaustive: append / prepend / remove+replace / split with a number as argument and as receiver, the number being 65, 97, 8364, 7, 0 or 12 in every integer width that holds it and as a float; oracle: the number is converted to the text it prints as. Distinct by construction", true)
+	for _, f := range []string{"append", "prepend", "remove", "split-join"} {
+		for _, n := range []int64{65, 97, 8364, 7, 0, 12} {
+			for _, rep := range append(append([]string{}, hx.IntReps...), "float64") {
+				if rep != "float64" && !hx.IntFits(n, rep) {
+					continue
+				}
+				idx++
+				if env.Mine(idx) {
+					na.Run(&c16NumArgCase{Filter: f, Rep: rep, N: n})
+				}
+			}
+		}
+	}
 
 	sp := c16Split.On(col, "rapid: 0..6 non-empty pieces free of the separator, joined by a non-space separator of 1..2 characters; oracle: split gives back exactly the pieces (count and content) and join of the split gives back the string. Non-trivial: >= 2 pieces; distinct by string+separator", false)
 	col.Rapid(sp.Sub, env.PerShard(env.Pick(60000, 600000)), func(t *rapid.T) {
